@@ -16,7 +16,7 @@ META = dict(
         quick="(a) ITS built by ITSConstruction from every reactant/product pair on n<=3 shared atoms (orders per side "
               "symbolic in {0,1,1.5,2,3}, element in {C,H,N,O}, hcount 0..2, charge -1..1), with a solver-chosen "
               "renumbering; (b) synthetic ITS graphs on all connected and disconnected shapes with 4 nodes plus the paths "
-              "P5, P6, a 5-ring, and 4-ring/triangle/5-ring with pendant atoms, order pairs symbolic, radii 0..3; a stream of two short-lived ITS graphs of equal size followed by an in-place edit (4-chain, 4-ring)",
+              "P5, P6, a 5-ring, and 4-ring/triangle/5-ring with pendant atoms, order pairs symbolic, radii 0..3; a stream of two short-lived ITS graphs of equal size followed by an in-place edit (4-chain, 4-ring); all-carbon 3-/4-chains and the 4-ring whose typesGH carry real neighbour-element lists",
         thorough="(a) n=4; (b) all shapes with 5 nodes, P7, 6-ring, radii 0..3",
     ),
     outside=["rsmi_to_its(core=True) front end (RDKit)", "get_rc(disconnected=True / keep_mtg=True) variants",
@@ -86,30 +86,39 @@ def h_rc_of_reaction(E, n, relab):
     E.observe((sorted(tuple(sorted(e)) for e in rc.edges), sorted(rc.nodes)))
 
 
-def synthetic_its(E, n, edges, hmax=1):
+def synthetic_its(E, n, edges, hmax=1, nbrs=False):
+    """nbrs=True: all-carbon ITS whose typesGH carry real neighbour-element lists per side (as graphs parsed from SMILES
+    do) instead of the placeholder ['', '']"""
     its = nx.Graph()
-    for v in range(1, n + 1):
-        el = E.choice("el%d" % v, ["C", "H", "O"])
-        hg, hh = E.int("hG%d" % v, 0, hmax), E.int("hH%d" % v, 0, hmax)
-        cg, ch = E.int("cG%d" % v, 0, 1), E.int("cH%d" % v, 0, 1)
-        its.add_node(v, element=el, aromatic=False, hcount=hg, charge=cg, atom_map=v, neighbors=["", ""],
-                     typesGH=((el, False, hg, cg, ["", ""]), (el, False, hh, ch, ["", ""])))
     oo = {}
     for (u, v) in edges:
         og = E.choice("oG%d_%d" % (u, v), ORD)
         oh = E.choice("oH%d_%d" % (u, v), ORD)
         E.assume(OR(term_bool(og > 0), term_bool(oh > 0)))
         oo[u, v] = oo[v, u] = (og, oh)
+    for v in range(1, n + 1):
+        el = "C" if nbrs else E.choice("el%d" % v, ["C", "H", "O"])
+        hg, hh = E.int("hG%d" % v, 0, hmax), E.int("hH%d" % v, 0, hmax)
+        cg, ch = E.int("cG%d" % v, 0, 1), E.int("cH%d" % v, 0, 1)
+        if nbrs:
+            ng = ["C" for (a, b) in edges if v in (a, b) and bool(oo[a, b][0] > 0)]
+            nh = ["C" for (a, b) in edges if v in (a, b) and bool(oo[a, b][1] > 0)]
+        else:
+            ng, nh = ["", ""], ["", ""]
+        its.add_node(v, element=el, aromatic=False, hcount=hg, charge=cg, atom_map=v, neighbors=list(ng),
+                     typesGH=((el, False, hg, cg, list(ng)), (el, False, hh, ch, list(nh))))
+    for (u, v) in edges:
+        og, oh = oo[u, v]
         its.add_edge(u, v, order=(og, oh), standard_order=og - oh)
     return its, oo
 
 
-def h_context(E, n, edges, kmax=3):
+def h_context(E, n, edges, kmax=3, nbrs=False):
     from synkit.Graph.ITS.its_decompose import get_rc
     from synkit.Graph.Context.radius_expand import RadiusExpand
 
     edges = [tuple(e) for e in edges]
-    its, oo = synthetic_its(E, n, edges)
+    its, oo = synthetic_its(E, n, edges, nbrs=nbrs)
     snap_nodes = {v: dict(d) for v, d in its.nodes(data=True)}
     rc = get_rc(its)
     E.check(rc_oracle_bad(its, rc, lambda u, v: oo[u, v]), "centre-is-the-changed-bonds")
@@ -222,6 +231,9 @@ def shards(tier, seed):
         fams.append((7, [[1, 2], [2, 3], [3, 4], [4, 5], [1, 5], [5, 6], [3, 7]]))
     for n, es in fams:
         sh.append(dict(h="context", params=dict(n=n, edges=es)))
+    # all-carbon chains / ring whose typesGH carry real neighbour-element lists (as parsed reactions have them)
+    for n, es in ((4, [[1, 2], [2, 3], [3, 4]]), (3, [[1, 2], [2, 3]]), (4, [[1, 2], [2, 3], [3, 4], [1, 4]])):
+        sh.append(dict(h="context", params=dict(n=n, edges=es, nbrs=True)))
     sh.append(dict(h="context_stream", params=dict(n=4, edges=[[1, 2], [2, 3], [3, 4]])))
     sh.append(dict(h="context_stream", params=dict(n=4, edges=[[1, 2], [2, 3], [3, 4], [1, 4]])))
     return sh
